@@ -82,6 +82,31 @@ thread_local! {
 #[derive(Default)]
 pub struct ConstFold;
 pub const CP: u32 = 5;
+/// smallest term size again, but with a `modify` hook that UNITES CLASSES WHICH HAVE SLOTS: a class that contains `a + 0`
+/// is united with `a` (valid in the model), possibly in the middle of the insertion that created the class
+#[derive(Default)]
+pub struct ArUnwrap;
+impl Analysis<Ar> for ArUnwrap {
+    type Data = u64;
+    fn make(eg: &EGraph<Ar, Self>, n: &Ar) -> u64 {
+        n.applied_id_occurrences().iter().fold(1u64, |s, a| s.saturating_add(*eg.analysis_data(a.id)))
+    }
+    fn merge(l: u64, r: u64) -> u64 {
+        l.min(r)
+    }
+    fn modify(eg: &mut EGraph<Ar, Self>, i: Id) {
+        let ident = eg.mk_identity_applied_id(i);
+        for n in eg.enodes_applied(&ident) {
+            if let Ar::Add(a, b) = &n {
+                if a.id != i && eg.enodes(b.id).iter().any(|m| matches!(m, Ar::Num(0))) {
+                    eg.union(&ident, a);
+                    return;
+                }
+            }
+        }
+    }
+}
+
 fn fold<F: Fn(Id) -> Option<u32>>(n: &Ar, get: F) -> Option<u32> {
     match n {
         Ar::Num(x) => Some(*x % CP),
@@ -373,6 +398,33 @@ impl Oracle for ArMinSize {
     }
 }
 
+impl Oracle for ArUnwrap {
+    const NAME: &'static str = "min-size+unwrap-hook";
+    fn least_fixpoint(eg: &EGraph<Ar, Self>) -> HashMap<Id, u64> {
+        let ids = eg.ids();
+        let mut best: HashMap<Id, u64> = HashMap::new();
+        loop {
+            let mut ch = false;
+            for &i in &ids {
+                for n in eg.enodes(i) {
+                    if n.applied_id_occurrences().iter().all(|a| best.contains_key(&a.id)) {
+                        let c = n.applied_id_occurrences().iter().fold(1u64, |s, a| s.saturating_add(best[&a.id]));
+                        let e = best.entry(i).or_insert(u64::MAX);
+                        if c < *e {
+                            *e = c;
+                            ch = true;
+                        }
+                    }
+                }
+            }
+            if !ch {
+                break;
+            }
+        }
+        best
+    }
+}
+
 impl Oracle for ArDepth {
     const NAME: &'static str = "depth";
     fn least_fixpoint(eg: &EGraph<Ar, Self>) -> HashMap<Id, u32> {
@@ -454,6 +506,11 @@ impl Oracle for ConstFold {
 
 /// insert every sub-term bottom-up and record the invocation returned for each (old handles are kept for the
 /// whole run: they go stale when their class is merged away)
+thread_local! {
+    /// complaints about invocations returned by add_expr (collected by add_ar_rec, drained by run)
+    static HANDLE_COMPLAINTS: std::cell::RefCell<Vec<String>> = std::cell::RefCell::new(Vec::new());
+}
+
 fn add_ar_rec<N: Analysis<Ar>>(eg: &mut EGraph<Ar, N>, t: &T, handles: &mut Vec<AppliedId>) -> AppliedId {
     for a in &t.args {
         if let Arg::Child(c) | Arg::Bind(_, c) = a {
@@ -461,6 +518,16 @@ fn add_ar_rec<N: Analysis<Ar>>(eg: &mut EGraph<Ar, N>, t: &T, handles: &mut Vec<
         }
     }
     let a = add_ar(eg, t);
+    // the invocation returned for a term (whatever a modify hook did meanwhile) mentions free slots of the term only,
+    // and looking the term up gives an equal invocation
+    let free: BTreeSet<Slot> = t.fv().into_iter().map(ar_slot).collect();
+    if !a.slots().iter().all(|s| free.contains(s)) {
+        HANDLE_COMPLAINTS.with(|c| c.borrow_mut().push(format!("add_expr({}) returned {a:?}, which mentions a slot that is not free in the term", t.to_sexp())));
+    }
+    match lookup_rec_expr(&ar_recexpr(t), eg) {
+        Some(l) if eg.eq(&l, &a) => {}
+        other => HANDLE_COMPLAINTS.with(|c| c.borrow_mut().push(format!("add_expr({}) returned {a:?} but looking the term up gives {other:?}", t.to_sexp()))),
+    }
     if !handles.contains(&a) {
         handles.push(a.clone());
     }
@@ -564,6 +631,9 @@ where
                     goals |= 2;
                 }
                 check_state(&eg, &handles, &when, &mut fails, &mut evals);
+                for c in HANDLE_COMPLAINTS.with(|c| std::mem::take(&mut *c.borrow_mut())) {
+                    fails.push(("returned-invocation".into(), format!("[{}] {c}", N::NAME), when.clone()));
+                }
                 if let Some(c) = CONST_CONFLICT.with(|c| c.borrow_mut().take()) {
                     fails.push(("conflicting-constants".into(), format!("[{}] {c}", N::NAME), when.clone()));
                 }
@@ -604,7 +674,7 @@ impl Prop for AnalysisProp {
         vec!["union_of_classes_with_different_data", "rewrite_iteration", "classes_merged", "constant_class_checked_against_model"]
     }
     fn rule(&self) -> String {
-        "Every ordered sequence of the stated length over: insertion of every arithmetic term of size <=2 (level 1: <=3; level 2: 16 hand-made terms whose unions cascade: parents that become congruent, classes dying into a class with fewer slots), every union of two such terms that denote the same function in F_5 and F_7, and five rewrite-iteration rule sets, is executed four times, under the analyses min-size (merge=min), constant folding in F_5 with a modify hook that adds the constant, depth (merge=min) and size-set (the set of term sizes mod 8 a class represents, merge=set union: a cyclic class reaches its fixpoint only if a self-referential e-node is re-evaluated repeatedly). After EVERY operation, at EVERY live class: the datum equals the join of make over eg.enodes() on the current data, equals an independently computed least fixpoint, and a union's result absorbs both previous data; analysis_data read through EVERY handle ever returned (all sub-terms, however many merges stale, read before anything canonicalises them) equals the datum of the class the handle now belongs to; at the end min-size equals Extractor::get_best_cost(AstSize), a Some(v) constant class denotes the constant v in the finite-field model, and no two different constants were ever merged. A further segment ('towers') enumerates two towers neg^i(X0), neg^j(Y0) over model-equal bases of different size with 0 or 2 extra parents per level, both insertion orders, then one union of the bases in either orientation (32 768 cases): merges that cascade upwards, at every level either side surviving, with or without parents. Non-trivial = sequences with a rewrite iteration or a union.".into()
+        "Every ordered sequence of the stated length over: insertion of every arithmetic term of size <=2 (level 1: <=3; level 2: 16 hand-made terms whose unions cascade: parents that become congruent, classes dying into a class with fewer slots), every union of two such terms that denote the same function in F_5 and F_7, and five rewrite-iteration rule sets, is executed five times, under the analyses min-size (merge=min), min-size with a modify hook that unites a class containing `a + 0` with `a` (classes WITH slots are merged inside the insertion that created them; the invocation returned by every add_expr must mention free slots of the term only and be eq to lookup_rec_expr of the term), constant folding in F_5 with a modify hook that adds the constant, depth (merge=min) and size-set (the set of term sizes mod 8 a class represents, merge=set union: a cyclic class reaches its fixpoint only if a self-referential e-node is re-evaluated repeatedly). After EVERY operation, at EVERY live class: the datum equals the join of make over eg.enodes() on the current data, equals an independently computed least fixpoint, and a union's result absorbs both previous data; analysis_data read through EVERY handle ever returned (all sub-terms, however many merges stale, read before anything canonicalises them) equals the datum of the class the handle now belongs to; at the end min-size equals Extractor::get_best_cost(AstSize), a Some(v) constant class denotes the constant v in the finite-field model, and no two different constants were ever merged. A further segment ('towers') enumerates two towers neg^i(X0), neg^j(Y0) over model-equal bases of different size with 0 or 2 extra parents per level, both insertion orders, then one union of the bases in either orientation (32 768 cases): merges that cascade upwards, at every level either side surviving, with or without parents. Non-trivial = sequences with a rewrite iteration or a union.".into()
     }
     fn assumptions(&self) -> Vec<String> {
         vec!["unions are restricted to model-valid equations so that constant folding has a meaning".into()]
@@ -625,7 +695,7 @@ impl Prop for AnalysisProp {
         };
         let mut out = Exec::default();
         let opsv: Vec<String> = ops.iter().map(|o| o.show()).collect();
-        for which in 0..4 {
+        for which in 0..5 {
             let o2 = ops.clone();
             let r = fresh_thread(move || match which {
                 0 => run::<ArMinSize>(&o2, &|eg, _a, _t, fails, evals| {
@@ -663,7 +733,11 @@ impl Prop for AnalysisProp {
                     let _ = term_table;
                 }),
                 2 => run::<ArDepth>(&o2, &|_, _, _, _, _| {}),
-                _ => run::<ArSizeSet>(&o2, &|_, _, _, _, _| {}),
+                3 => run::<ArSizeSet>(&o2, &|_, _, _, _, _| {}),
+                _ => run::<ArUnwrap>(&o2, &|eg, a, t, fails, evals| {
+                    // the hook only asserts model-valid equations: the e-graph must still agree with the model
+                    check_against_model(eg, a, t, &[CP], "at the end", fails, evals);
+                }),
             });
             out.traces += 1;
             out.transitions += ops.len() as u64;
